@@ -3,6 +3,7 @@
   Property theorems only; helper lemmas live in Nutree/Lemmas.
 -/
 import Nutree.Model.Lock
+import Nutree.Lemmas.LockProgress
 namespace Nutree.C18
 open Nutree Nutree.Lock
 
@@ -16,5 +17,223 @@ theorem generated_guarded : ∀ p ∈ snapshotProgs, Guarded p.2 := by
 /-- the lock is created as a re-entrant lock, `__enter__` acquires and `__exit__` releases it. -/
 theorem generated_reentrant :
     Generated.lockReentrant = true ∧ Generated.enterAcquires = true ∧ Generated.exitReleases = true := by decide
+
+/-! ## The protocol: every schedule, any number of guarded threads, re-entrant lock
+
+`Inv`, `LockInv`, `TraceOK`, `dep`, `depFrom`, `evsOf`, `remaining` are defined in
+`Nutree/Lemmas/LockBasic.lean` and `Nutree/Lemmas/LockInv.lean`. -/
+
+/-- K1. The invariant `Inv ps` (lengths, owner/count/depth agreement, remaining programs guarded
+from the current depth, the trace is consistent with the depths — `TraceOK`, `trace_dep` — and
+each thread's executed events followed by its remaining program are its original program)
+holds in every configuration reachable under any schedule. -/
+theorem inv_reachable (ps : List Prog) (hps : ∀ p ∈ ps, Guarded p) (sched : List Tid) :
+    Inv ps (run true (Cfg.init ps) sched) :=
+  inv_reachable' ps hps sched
+
+/-- K1, unfolded into the listed facts (in `getElem?` form). -/
+theorem inv_reachable_facts (ps : List Prog) (hps : ∀ p ∈ ps, Guarded p) (sched : List Tid) :
+    let c := run true (Cfg.init ps) sched
+    c.progs.length = ps.length ∧ c.depth.length = ps.length ∧
+    (c.owner = none ↔ c.count = 0) ∧
+    (∀ i, c.owner = some i → c.depth[i]? = some c.count ∧
+        ∀ j, j ≠ i → j < ps.length → c.depth[j]? = some 0) ∧
+    (c.owner = none → ∀ j, j < ps.length → c.depth[j]? = some 0) ∧
+    (∀ (i : Nat) (p : Prog) (d : Nat), c.progs[i]? = some p → c.depth[i]? = some d →
+        guardedFrom d p = true) :=
+  inv_facts (inv_reachable ps hps sched)
+
+/-- K2. At most one thread has positive lock depth. -/
+theorem mutex (ps : List Prog) (hps : ∀ p ∈ ps, Guarded p) (sched : List Tid) :
+    let c := run true (Cfg.init ps) sched
+    ∀ (i j di dj : Nat), c.depth[i]? = some (di + 1) → c.depth[j]? = some (dj + 1) → i = j :=
+  fun _ _ _ _ hi hj => inv_mutex (inv_reachable ps hps sched) hi hj
+
+/-- K3. Every `read`/`write` in the trace was executed while its own thread owned the lock. -/
+theorem events_hold_lock (ps : List Prog) (hps : ∀ p ∈ ps, Guarded p) (sched : List Tid) :
+    ∀ x ∈ (run true (Cfg.init ps) sched).trace,
+      (x.2.1 = .read ∨ x.2.1 = .write) → x.2.2 = some x.1 :=
+  fun _ hx he => traceOK_rw (inv_reachable ps hps sched).trace_ok hx he
+
+/-- K3, strengthened: whenever the lock was held, the executing thread was the holder; when it
+was free, the event was an (outermost) `acq`. -/
+theorem executor_is_owner (ps : List Prog) (hps : ∀ p ∈ ps, Guarded p) (sched : List Tid) :
+    ∀ x ∈ (run true (Cfg.init ps) sched).trace,
+      x.2.2 = some x.1 ∨ (x.2.2 = none ∧ x.2.1 = .acq) :=
+  fun _ hx => traceOK_mem (inv_reachable ps hps sched).trace_ok hx
+
+/-- K3, history form: the recorded owner tag of every entry is exactly the thread whose own
+`acq`/`rel` history before that entry leaves it at positive depth. -/
+theorem tag_iff_history_depth (ps : List Prog) (hps : ∀ p ∈ ps, Guarded p) (sched : List Tid)
+    (post pre : List Entry) (x : Entry)
+    (ht : (run true (Cfg.init ps) sched).trace = post ++ x :: pre) (k : Tid) :
+    x.2.2 = some k ↔ 0 < dep k pre :=
+  traceOK_split (ht ▸ (inv_reachable ps hps sched).trace_ok) k
+
+/-- the events executed by thread `k` (oldest first) followed by its remaining program are its
+original program: the trace of a thread is a prefix of its program. -/
+theorem trace_is_program_prefix (ps : List Prog) (hps : ∀ p ∈ ps, Guarded p) (sched : List Tid)
+    (k : Tid) :
+    let c := run true (Cfg.init ps) sched
+    evsOf k c.trace ++ c.progs[k]?.getD [] = ps[k]?.getD [] :=
+  (inv_reachable ps hps sched).trace_prog k
+
+/-- K4. Between two events of thread `i` (trace newest first: `e2` after `e1`) such that the
+lock was held by `i` at both and at every event in between, no `write` of another thread
+occurs — in fact every event in between is `i`'s own. -/
+theorem snapshot_atomic (ps : List Prog) (hps : ∀ p ∈ ps, Guarded p) (sched : List Tid)
+    (post mid pre : List Entry) (i : Tid) (e1 e2 : Ev)
+    (ht : (run true (Cfg.init ps) sched).trace
+        = post ++ (i, e2, some i) :: mid ++ (i, e1, some i) :: pre)
+    (hmid : ∀ y ∈ mid, y.2.2 = some i) :
+    (∀ j, j ≠ i → ∀ o, (j, Ev.write, o) ∉ mid) ∧ ∀ y ∈ mid, y.1 = i := by
+  have hok := (inv_reachable ps hps sched).trace_ok
+  have hown : ∀ y ∈ mid, y.1 = i := by
+    intro y hy
+    have hm : y ∈ (run true (Cfg.init ps) sched).trace := by rw [ht]; simp [hy]
+    exact traceOK_tag hok hm (hmid y hy)
+  exact ⟨fun j hj o hm => hj (hown _ hm), hown⟩
+
+/-- K4, pointwise window lemma. After an outermost `acq` of thread `i` (tag `none`: the lock
+was free, depth 0→1), consider any later entry `x` of ANY thread, `s` being the entries between
+that `acq` and `x`.  If thread `i`'s own depth, replayed from 1 over `s` (`depFrom i 1 s`: +1 per
+`acq` of `i`, −1 per `rel` of `i`), is still positive — i.e. the matching `rel` has not happened —
+then `x` was executed under owner `i`, and by `i` itself. -/
+theorem reads_contiguous_pointwise (ps : List Prog) (hps : ∀ p ∈ ps, Guarded p)
+    (sched : List Tid) (post mid pre : List Entry) (i : Tid)
+    (ht : (run true (Cfg.init ps) sched).trace = post ++ mid ++ (i, Ev.acq, none) :: pre)
+    (x : Entry) (s : List Entry) (hs : (x :: s) <:+ mid) (hpos : 0 < depFrom i 1 s) :
+    x.2.2 = some i ∧ x.1 = i :=
+  window_pointwise (ht ▸ (inv_reachable ps hps sched).trace_ok) hs hpos
+
+/-- K4. The critical section of thread `i` from its outermost `acq` up to and including the
+matching `rel` (window `mid`: before each of its entries `i`'s replayed depth is positive) is
+contiguous in the GLOBAL trace: every entry in the window is tagged `some i` and was executed
+by `i`; in particular all reads in the window are `i`'s own and no other thread writes (or does
+anything) in it. -/
+theorem reads_contiguous (ps : List Prog) (hps : ∀ p ∈ ps, Guarded p) (sched : List Tid)
+    (post mid pre : List Entry) (i : Tid)
+    (ht : (run true (Cfg.init ps) sched).trace = post ++ mid ++ (i, Ev.acq, none) :: pre)
+    (hwin : ∀ x s, (x :: s) <:+ mid → 0 < depFrom i 1 s) :
+    ∀ x ∈ mid, x.2.2 = some i ∧ x.1 = i := by
+  intro x hx
+  obtain ⟨u, s, rfl⟩ := List.append_of_mem hx
+  have hs : (x :: s) <:+ (u ++ x :: s) := ⟨u, rfl⟩
+  exact reads_contiguous_pointwise ps hps sched post _ pre i ht x s hs (hwin x s hs)
+
+/-- K5. While `a` owns the lock, every other thread `b` is disabled, its next event (if any)
+is an `acq` (never `read`/`write`/`rel`), and scheduling non-owners any number of times leaves
+the configuration unchanged: no event of `b` — in particular no `read` — occurs until `a`
+has released. -/
+theorem blocked_until_release (ps : List Prog) (hps : ∀ p ∈ ps, Guarded p) (sched : List Tid)
+    (a b : Tid) (ho : (run true (Cfg.init ps) sched).owner = some a) (hb : b ≠ a) :
+    let c := run true (Cfg.init ps) sched
+    enabled true c b = false ∧
+    (∀ (e : Ev) (rest : Prog), c.progs[b]? = some (e :: rest) → e = .acq) ∧
+    ∀ s : List Tid, (∀ t ∈ s, t ≠ a) → run true c s = c := by
+  have h := inv_reachable ps hps sched
+  exact ⟨blocked_enabled h ho hb, fun e rest hp => (blocked_next h ho hb hp).1,
+    fun s hs => blocked_run h ho s hs⟩
+
+/-- K6. No deadlock with the re-entrant lock: an unfinished reachable configuration has an
+enabled thread. -/
+theorem reentrant_no_deadlock (ps : List Prog) (hps : ∀ p ∈ ps, Guarded p) (sched : List Tid) :
+    let c := run true (Cfg.init ps) sched
+    finished c = false → ∃ i, enabled true c i = true :=
+  fun hf => no_deadlock (inv_reachable ps hps sched) hf
+
+/-- K6. The lock owner is never blocked by itself. -/
+theorem owner_never_blocked (ps : List Prog) (hps : ∀ p ∈ ps, Guarded p) (sched : List Tid)
+    (a : Tid) (ho : (run true (Cfg.init ps) sched).owner = some a) :
+    enabled true (run true (Cfg.init ps) sched) a = true :=
+  owner_enabled (inv_reachable ps hps sched) ho
+
+/-- K6, measure: an enabled step executes exactly one of the remaining events (any lock kind,
+any configuration); a disabled one changes nothing. -/
+theorem progress_measure (r : Bool) (c : Cfg) (i : Tid) :
+    (enabled r c i = true → remaining (step r c i) + 1 = remaining c) ∧
+    (enabled r c i = false → step r c i = c) ∧
+    (finished c = true ↔ remaining c = 0) :=
+  ⟨remaining_step, step_of_not_enabled, finished_iff_remaining⟩
+
+/-- K6, termination: every reachable configuration can be driven to `finished`. -/
+theorem exists_finishing_schedule (ps : List Prog) (hps : ∀ p ∈ ps, Guarded p)
+    (sched : List Tid) : ∃ s, finished (run true (Cfg.init ps) (sched ++ s)) = true := by
+  obtain ⟨s, hs⟩ := exists_finishing (inv_reachable ps hps sched)
+  exact ⟨s, by rw [run_append]; exact hs⟩
+
+/-- K6, fairness: after an arbitrary prefix `sched`, any continuation consisting of at least
+`remaining` rounds, each of which offers every thread a turn (in any order, with any
+repetitions), ends in a `finished` configuration. -/
+theorem fair_schedule_finishes (ps : List Prog) (hps : ∀ p ∈ ps, Guarded p) (sched : List Tid)
+    (rounds : List (List Tid))
+    (hr : ∀ round ∈ rounds, ∀ i, i < ps.length → i ∈ round)
+    (hlen : remaining (run true (Cfg.init ps) sched) ≤ rounds.length) :
+    finished (run true (Cfg.init ps) (sched ++ rounds.flatten)) = true := by
+  rw [run_append]
+  exact fair_finishes (inv_reachable ps hps sched) rounds hr hlen
+
+/-- K7. Calling a snapshot operation inside one's own `with tree:` is again guarded, so all of
+the above covers the nested use. -/
+theorem nested_ok (p : Prog) (h : Guarded p) : Guarded (nested p) := guarded_nested h
+
+/-- K9. Writers are guarded. -/
+theorem writers_guarded (n : Nat) : Guarded (writer n) := guarded_writer n
+
+/-- K8. Re-entrancy matters: with a plain lock the single thread `nested [acq, read, rel]`
+gets stuck after its first `acq` — not finished, no thread enabled, and no schedule moves it. -/
+theorem plain_lock_deadlocks :
+    let c := run false (Cfg.init [nested [.acq, .read, .rel]]) [0]
+    finished c = false ∧ (∀ i, enabled false c i = false) ∧ ∀ s, run false c s = c := by
+  intro c
+  have hen : ∀ i, enabled false c i = false := by
+    intro i
+    cases i with
+    | zero => decide
+    | succ i => exact enabled_out_of_range (by simp [c, run, step, enabled, Cfg.init, nested])
+  refine ⟨by decide, hen, ?_⟩
+  intro s
+  induction s with
+  | nil => rfl
+  | cons i s ih => rw [run_cons, step_of_not_enabled (hen i)]; exact ih
+
+/-- K8, contrast: the same program finishes under the re-entrant lock. -/
+theorem reentrant_nested_finishes :
+    finished (run true (Cfg.init [nested [.acq, .read, .rel]]) [0, 0, 0, 0, 0]) = true := by
+  decide
+
+/-! ## Non-vacuity: three threads, interleaved schedule with blocked choices -/
+
+/-- a writer, `TypedTree.save` (which itself nests `Tree.save` inside its own `with`), and
+`Tree.copy` called inside the caller's `with tree:`. -/
+def demoProgs : List Prog :=
+  [writer 2, (snapshotProgs[5]?.map (·.2)).getD [], nested ((snapshotProgs[0]?.map (·.2)).getD [])]
+
+/-- thread 1 starts; 0 and 2 are tried while 1 holds the lock (blocked), etc. -/
+def demoSched : List Tid :=
+  [1, 1, 0, 2, 1, 1, 1, 0, 1, 1, 1, 2, 1, 1, 1, 1, 0, 0, 1, 2, 0, 0, 2, 2, 0, 2, 2, 2]
+
+theorem demoProgs_guarded : ∀ p ∈ demoProgs, Guarded p := by
+  intro p hp
+  have h : demoProgs.all (fun p => guardedFrom 0 p) = true := by decide
+  exact (List.all_eq_true.mp h) p hp
+
+example : demoProgs.map List.length = [4, 12, 5] := by decide
+
+set_option maxRecDepth 100000 in
+example :
+    let c := run true (Cfg.init demoProgs) demoSched
+    finished c = true ∧ c.trace.length = 21 ∧ c.owner = none ∧
+    (∀ x ∈ c.trace, (x.2.1 = .read ∨ x.2.1 = .write) → x.2.2 = some x.1) ∧
+    (1, Ev.read, some 1) ∈ c.trace ∧ (0, Ev.write, some 0) ∈ c.trace ∧
+    (2, Ev.read, some 2) ∈ c.trace := by
+  decide
+
+/-- while thread 1 is inside `TypedTree.save` (after 8 choices), the writer is blocked. -/
+example :
+    let c := run true (Cfg.init demoProgs) (demoSched.take 8)
+    c.owner = some 1 ∧ enabled true c 0 = false ∧ enabled true c 2 = false ∧
+    enabled true c 1 = true := by
+  decide
 
 end Nutree.C18
